@@ -14,7 +14,7 @@ import time
 
 from pyvc import core
 
-PIECES = ["line", " ", "\t", "12", "7", "0", '"f.h"', '"a b.c"', "3", "x", '"', "1a", "@", "0x1", "(", ""]
+PIECES = ["line", " ", "\t", "12", "7", "0", '"f.h"', '"a b.c"', '"q\\"r.h"', "3", "x", '"', "1a", "@", "0x1", "(", ""]
 NEXT = "42u q9\n"
 WELL = re.compile(r'^[ \t]*(line[ \t]+|line(?=")|(?=\d))?[ \t]*(\d+)([ \t]*("(?:[^"\\\n]|\\.)*")(?:[ \t]*\d+)*)?[ \t]*$')
 
